@@ -225,7 +225,18 @@ def run(ctx):
                 ctx.violation(dict(sig0, kind="setup_raises", exc=type(e).__name__), dict(desc=desc, msg=str(e)[:200]))
                 continue
             for step in range(n_upd + 1):
-                x = torch.from_numpy(r.standard_normal(xshape)).to(wd).requires_grad_(True)
+                x = torch.from_numpy(r.standard_normal(xshape)).to(wd)
+                lay = r.random()
+                if lay < 0.2 and x.ndim >= 3:  # what a transpose upstream produces (same values, permuted strides)
+                    x = x.transpose(0, -2).contiguous().transpose(0, -2)
+                    ctx.count("noncontiguous_inputs")
+                elif lay < 0.3 and x.ndim == 4:
+                    x = x.contiguous(memory_format=torch.channels_last)
+                    ctx.count("noncontiguous_inputs")
+                elif lay < 0.4 and x.ndim == 2:
+                    x = x.t().contiguous().t()
+                    ctx.count("noncontiguous_inputs")
+                x = x.detach().requires_grad_(True)
                 model.zero_grad(set_to_none=True)
                 qin = None
                 try:
